@@ -300,6 +300,10 @@ CLASS_NAMES = {
     "K02c": "export_assigned_inside_its_module_after_import",
     "K02d": "module_procedure_assigned_inside_its_module",
     "K02e": "primitive_error_inside_jit_compiled_library_or_module_procedure",
+    "K02f": "procedure_with_assigned_parameter_under_recursive_inliner",
+    "K02g": "local_read_as_operand_then_assigned_by_later_operand_in_native_code",
+    "K02h": "stack_overflow_diagnostic_prints_instruction_listing",
+    "K02i": "local_read_as_operand_then_moved_by_later_operand_in_native_code",
 }
 CLASS_ALIASES = {"K02a": ("global_defined_and_read_in_one_unit_assigned_later",)}   # K06a: the same defect seen by C06
 IDX_INLINE_RECURSIVE = SWITCH_NAMES.index("STEEL_INLINE_RECURSIVE")
@@ -324,6 +328,100 @@ def k02e_signature(r_on, r_off):
     vals_ok = all(x == y or re.search(r"\berr\b", y) for x, y in zip(a, b))
     out_ok = r_on["out"] == r_off["out"] or bool(re.search(r"\berr\b", r_off["out"]))
     return vals_ok and out_ok
+
+
+SPECIAL = {"define", "lambda", "let", "let*", "letrec", "letrec*", "if", "cond", "begin", "set!", "quote", "when", "unless",
+           "and", "or", "with-handler", "require", "provide", "case"}
+
+
+def _contains(x, pred):
+    if pred(x):
+        return True
+    return isinstance(x, list) and any(_contains(y, pred) for y in x)
+
+
+def _applications(forms):
+    """All lists that are procedure applications (head is not a special form), at any depth."""
+    out = []
+
+    def walk(x):
+        if not isinstance(x, list) or not x:
+            return
+        if x[0] == "quote":
+            return
+        if isinstance(x[0], str) and x[0] == "let" and len(x) > 2 and isinstance(x[1], list):
+            for b in x[1]:
+                if isinstance(b, list) and len(b) == 2:
+                    walk(b[1])
+            for y in x[2:]:
+                walk(y)
+            return
+        if not (isinstance(x[0], str) and x[0] in SPECIAL):
+            out.append(x)
+        for y in x:
+            walk(y)
+
+    for f in forms:
+        walk(f)
+    return out
+
+
+def operand_assigned_later(text):
+    """K02g: an application has a bare variable as an operand and a LATER operand that assigns that variable."""
+    for app in _applications(read_sexps(text)):
+        for i, a in enumerate(app[1:], 1):
+            if isinstance(a, str) and re.match(r"[A-Za-z]", a):
+                for b in app[i + 1:]:
+                    if _contains(b, lambda y, a=a: isinstance(y, list) and len(y) >= 2 and y[0] == "set!" and y[1] == a):
+                        return True
+    return False
+
+
+def operand_moved_later(text):
+    """K02i: an application has a bare variable as an operand and a LATER operand containing a conditional one of
+    whose branches is that same variable (its last, moving, read)."""
+    for app in _applications(read_sexps(text)):
+        for i, a in enumerate(app[1:], 1):
+            if isinstance(a, str) and re.match(r"[A-Za-z]", a):
+                for b in app[i + 1:]:
+                    if _contains(b, lambda y, a=a: isinstance(y, list) and len(y) >= 3 and y[0] == "if" and a in y[2:4]):
+                        return True
+    return False
+
+
+def assigned_parameter_called(pieces):
+    """K02f: a piece defines a procedure that assigns one of its own parameters and also calls that procedure."""
+    for piece in pieces:
+        forms = read_sexps(piece)
+        names = []
+        for f in forms:
+            if isinstance(f, list) and len(f) >= 3 and f[0] == "define" and isinstance(f[1], list) and f[1] and \
+                    all(isinstance(x, str) for x in f[1]):
+                params = f[1][1:]
+                if any(_contains(f[2:], lambda y, p=p: isinstance(y, list) and len(y) >= 2 and y[0] == "set!" and y[1] == p) for p in params):
+                    names.append(f[1][0])
+        for n in names:
+            cnt = sum(1 for a in _applications(forms) if a[0] == n)
+            if cnt >= 1:
+                return True
+    return False
+
+
+DUMP_LINE = re.compile(r"^\s*\d+\s+[A-Za-z0-9]+\s+:\s+\d+\s*$")
+
+
+def only_dump_differs(ra, rb):
+    """K02h: both fail the same way and the outputs are equal once the lines of the instruction listing are removed."""
+    if ra is None or rb is None or ra["res"] != rb["res"] or ra["res"][0] != "err":
+        return False
+    strip = lambda o: [l for l in o.split("\n") if not DUMP_LINE.match(l)]
+    return ra["out"] != rb["out"] and strip(ra["out"]) == strip(rb["out"])
+
+
+def item_text(batch, i):
+    cls = batch.cls[i]
+    extra = cls.get("text", "") if isinstance(cls, dict) else ""
+    return "\n".join(batch.items[i]) + "\n" + extra
 
 
 def shows_error(rec):
@@ -480,6 +578,18 @@ def process(ctx, batch, configs, values, stats, known, recs=None):
                 # a module that assigns its own procedure; only configurations with STEEL_INLINE or
                 # STEEL_MODULE_INLINE deviate from the default
                 attributed = "K02d"
+            off = [n for n in names if n[IDX_JIT] == "1"]     # bit set = STEEL_JIT=false
+            on = [n for n in names if n[IDX_JIT] == "0"]
+            jit_split = bool(off and on) and first_difference(recs, i, j + 1, off) is None
+            if attributed is None and "K02h" in known and only_dump_differs(ra, rb):
+                attributed = "K02h"
+            if attributed is None and "K02f" in known and assigned_parameter_called(pieces[: j + 1]) and \
+                    first_difference(recs, i, j + 1, [n for n in names if n[IDX_INLINE_RECURSIVE] == "0"]) is None:
+                attributed = "K02f"
+            if attributed is None and jit_split and "K02g" in known and operand_assigned_later(item_text(batch, i)):
+                attributed = "K02g"
+            if attributed is None and jit_split and "K02i" in known and operand_moved_later(item_text(batch, i)):
+                attributed = "K02i"
             if attributed is None and "K02e" in known:
                 off = [n for n in names if n[IDX_JIT] == "1"]     # bit set = STEEL_JIT=false
                 on = [n for n in names if n[IDX_JIT] == "0"]
@@ -752,7 +862,7 @@ def run(ctx):
         with open(path, "w") as fh:
             fh.write(text)
         stats["features"]["program-as-module"] = stats["features"].get("program-as-module", 0) + 1
-        b.add(["(require \"%s\")" % path], meta=text)
+        b.add(["(require \"%s\")" % path], meta=text, cls={"text": text})
     batches.append(b)
 
     # 3. lowered-core programs: model value (evalIR, with and without the model's inlining) = value under every configuration
@@ -787,7 +897,7 @@ def run(ctx):
         for _ in range(n):
             h = gen_module_program(rng, moddir, stream)
             stats["features"]["modules"] = stats["features"].get("modules", 0) + 1
-            b.add(h["pieces"], cls={"K02c": h["k02c"]})
+            b.add(h["pieces"], cls={"K02c": h["k02c"], "text": h.get("sources", "")})
         batches.append(b)
 
     # 4c. operand-type coverage of the native tier (no reference semantics: bignums, floats, rationals)
